@@ -132,6 +132,66 @@ def session(run, rng, label, steps, forged):
     return net, diffs, cfg, stats, n_forged, lost_cb
 
 
+def stale_ack_after_wrap(run):
+    """known finding D22 reproduced on the real endpoints, every run: an ack header built when the peer's newest
+    accepted datagram was m names the wire numbers of m-32..m, which are also the wire numbers of m+65535-32..m+65535.
+    History: A and B exchange ~100 datagrams; then every A->B datagram is lost (B is gone) while A keeps sending one
+    small message per send interval; an attacker replays ONE recorded B datagram (more than 32 behind A's receive window,
+    so BitField.insert accepts it again each time: D16) every 3.3 s, which keeps A alive; after 65535 further datagrams A
+    sends a message with a callback in the datagram whose wire number equals the replayed header's ack field; the next
+    replay makes A report success for a message B never received."""
+    rng = run.rng
+    net = netsim.Net(run, rng, {"loss": 0, "dup": 0, "reorder": 0, "tick": 512}, mtu=1500)
+    net.A.snap = net.B.snap = False
+    try:
+        for i in range(3):
+            net.send("client", 9, 0, with_cb=False)
+            net.step()
+        for i in range(400):
+            net.step()
+        rec_idx = len(net.emitted["server"]) - 40
+        ack = net.emitted["server"][rec_idx]["hdr"][3]
+        delivered_before = len(net.delivered["server"])
+        net.drop_filter = lambda who, rec: who == "client"          # A -> B outage from now on; B never ticks again
+        k = 0
+        while len(net.emitted["client"]) < 65535 + ack - 1 and k < 70000:
+            k += 1
+            net.advance(512)
+            net.send("client", 9, 0, with_cb=False)
+            if k % 100 == 0:
+                net.replay("client", rec_idx)
+                net.pump("client")
+            else:
+                net.tick("client")
+        run.evaluations += k
+        run.count("stale_ack_history_datagrams", len(net.emitted["client"]))
+        if net.A.impl.conn.status.value != 2 or len(net.emitted["client"]) != 65535 + ack - 1:
+            raise RuntimeError("stale-ack scenario: the sender did not stay connected through the wrap (%s, %d datagrams)"
+                               % (net.A.impl.conn.status, len(net.emitted["client"])))
+        net.advance(512)
+        mid = net.send("client", 12, 0, with_cb=True)
+        net.tick("client")
+        hdr = net.emitted["client"][-1]["hdr"]
+        net.advance(512)
+        net.replay("client", rec_idx)
+        net.pump("client")
+        calls = [(t, ok) for (t, cbid, ok) in net.callbacks["client"] if cbid == mid]
+        got = [t for (t, p) in net.delivered["server"] if p == net.sent["client"][mid]["payload"]]
+        if any(ok for (_, ok) in calls) and not got:
+            run.oracle_violation("success-reported-but-peer-never-got-the-message",
+                                 {"scenario": "stale-ack-after-seq-wrap", "who": "client", "calls": calls,
+                                  "datagram_wire_seq": hdr[2], "replayed_header_ack": ack, "replayed_header_ack_bits": net.emitted["server"][rec_idx]["hdr"][7],
+                                  "datagrams_sent_since_the_peer_last_accepted_one": len(net.emitted["client"]) - ack,
+                                  "delivered_to_peer_since": len(net.delivered["server"]) - delivered_before}, "_handle_ack_bits / 16-bit SeqNum")
+        run.nt(("stale-ack", hdr[2], ack))
+        if run.thorough():
+            diffs = net.check_models()
+            run.compare("conn_run", [{"session": "stale-ack-after-seq-wrap", "first_difference": diffs[:1]}], ["agree"],
+                        ["agree" if not diffs else "differ"])
+    finally:
+        net.close()
+
+
 def net_due_callbacks_possible(net, who):
     return True
 
@@ -161,4 +221,5 @@ def run(run):
         if i < 2:
             run.sample({"session": label, "cfg": cfg, "callbacks": {w: net.callbacks[w][:6] for w in net.callbacks}})
     run.compare("conn_run", cases, impl, mod)
+    stale_ack_after_wrap(run)
     run.rules.append(RULE)
